@@ -408,7 +408,20 @@ structure Thread where
   todo : List Job
   seen : List (Loc × Loc)
   outs : List Out
+  prog : List Job        -- ghost: the whole program this thread was started with (never written)
   deriving DecidableEq, Repr, Inhabited
+
+/-- what the body of a flat job returns to its caller -/
+def Job.bodyOut (j : Job) : Out := if j.raises then .err (.body 0) else .ok
+
+/-- the outcome of a flat job as a function of the job and the installed locales only (what a
+sequential run gives; `evalEv_flat_expected` in EPV/Lemmas/GlobalsThreads.lean) -/
+def Job.expected (w : World) (j : Job) : Out :=
+  match j.mgr.lc with
+  | none => j.bodyOut
+  | some req =>
+    if w.avail (w.norm req) || (j.mgr.fallback && w.avail enUS) then j.bodyOut
+    else .err .FOCH0002
 
 /-- shared state of the interleaving semantics -/
 structure Shared where
@@ -454,7 +467,7 @@ def step (w : World) (s : Shared) (t : Thread) : Option (Shared × Thread) :=
                         | some tg => t.seen ++ [(tg, s.lc)]
                         | none => t.seen })
   | .body saved _ 0 =>
-    let out : Out := if t.cur.raises then .err (.body 0) else .ok
+    let out : Out := t.cur.bodyOut
     match saved with
     | none => some (s, { t with pc := .idle, outs := t.outs ++ [out] })
     | some sv => some (s, { t with pc := .restore sv, outs := t.outs ++ [out] })
@@ -464,7 +477,7 @@ def step (w : World) (s : Shared) (t : Thread) : Option (Shared × Thread) :=
   | .release => some ({ s with lock := false }, { t with pc := .idle })
 
 /-- a thread that has not started: `jobs` to run -/
-def Thread.init (jobs : List Job) : Thread := ⟨.idle, default, jobs, [], []⟩
+def Thread.init (jobs : List Job) : Thread := ⟨.idle, default, jobs, [], [], jobs⟩
 
 /-- finished = idle with nothing left -/
 def Thread.done (t : Thread) : Bool := t.pc == .idle && t.todo.isEmpty
